@@ -31,6 +31,7 @@ pub fn run(name : &str, ctx : &Ctx, out : &mut Out) -> bool
         "c10_clean_build" => hist::clean_build(ctx, out),
         "swap" => hist::swap(ctx, out),
         "mixed" => hist::mixed(ctx, out),
+        "dropped" => hist::dropped_rule(ctx, out),
         "sched" => sched::schedules(ctx, out),
         "crash" => crash::crashes(ctx, out),
         "c19_live" => live::live_server(ctx, out),
